@@ -54,7 +54,25 @@ theorem C15_goroutines_is_code : Gen.loadGoroutines = Load.expectedGoroutines :=
 /-- Reading of two source facts as a configuration of the model: what `iteratorRole.IsEnabled()`
     returns, and under which conditions `MakeDisabledRoleCallback` replaces the error of a stage by
     `RoleDisabledError`. Anything but the two known shapes of each spot reads as `none`. -/
-def Load.cfgOfSource (iterIsEnabled : String) (guards : List String) : Option Cfg :=
+def Load.posOf (x : String) : List String → Option Nat
+  | [] => none
+  | y :: ys => if y = x then some 0 else (Load.posOf x ys).map (· + 1)
+
+/-- The steps of `includeRole.ProcessTemplates` the model of an include role is written for, in
+    source order: its own template sequence (Locals on the VarStack), the Locals written to its
+    Vars, `enabled` trimmed, return when disabled (the sub-workflow is not even looked up),
+    `loadSubworkflow(include, r)` (the loaded root's maps wrap the role's own), the replacement of
+    the composed aggregatorRole by the loaded root, `parent` and `Name` put back, the loaded root's
+    own `ProcessTemplates`. -/
+def Load.expectedIncludeSteps : List String :=
+  ["sequence", "publish-locals", "trim-enabled", "return-if-disabled", "load-under-self", "swap",
+   "restore:parent", "restore:Name", "descend-into-loaded-root"]
+
+def Load.cfgOfSource (iterIsEnabled : String) (guards : List String) (inclSteps : List String) : Option Cfg :=
+  let late : Option Bool :=
+    match Load.posOf "publish-locals" inclSteps, Load.posOf "swap" inclSteps with
+    | some p, some s => some (decide (s < p))
+    | _, _ => none
   let byRaw : Option Bool :=
     if iterIsEnabled = "len(i.Roles) > 0" then some false
     else if iterIsEnabled = "i.template.IsEnabled()" then some true
@@ -63,9 +81,9 @@ def Load.cfgOfSource (iterIsEnabled : String) (guards : List String) : Option Cf
     if guards = ["stage == template.STAGE0 && err == nil", "!r.IsEnabled()"] then some false
     else if guards = ["stage == template.STAGE0", "!r.IsEnabled()"] then some true
     else none
-  match mask, byRaw with
-  | some m, some r => some { maskEnabledError := m, iterByRawText := r }
-  | _, _ => none
+  match mask, byRaw, late with
+  | some m, some r, some l => some { maskEnabledError := m, iterByRawText := r, inclPublishLate := l }
+  | _, _, _ => none
 
 /-- The code, as extracted now, is `codeCfg`: an iterator counts as enabled iff it still holds a
     generated role, and the stage-0 callback reports "role disabled" only when evaluating
@@ -73,13 +91,30 @@ def Load.cfgOfSource (iterIsEnabled : String) (guards : List String) : Option Cf
     `ProcessTemplates` keep exactly the children with `IsEnabled()`, and an aggregator disables
     itself iff `len(r.Roles) == 0` (`aggOut`). (Reverting either repair in /repo breaks this.) -/
 theorem C15_pruning_is_code :
-    Load.cfgOfSource Gen.loadIteratorIsEnabled Gen.loadDisabledRoleGuards = some codeCfg ∧
+    Load.cfgOfSource Gen.loadIteratorIsEnabled Gen.loadDisabledRoleGuards Gen.loadIncludeSteps = some codeCfg ∧
     Gen.loadChildFilters = [("aggregatorRole", "role.IsEnabled()"), ("iteratorRole", "role.IsEnabled()")] ∧
     Gen.loadSelfDisable = "len(r.Roles) == 0" := by decide
 
 /-- …and the source as it was before the two repairs reads as `legacyCfg`. -/
 theorem C15_legacy_is_former_code :
-    Load.cfgOfSource "i.template.IsEnabled()" ["stage == template.STAGE0", "!r.IsEnabled()"] = some legacyCfg := by decide
+    Load.cfgOfSource "i.template.IsEnabled()" ["stage == template.STAGE0", "!r.IsEnabled()"] Load.expectedIncludeSteps =
+      some legacyCfg := by decide
+
+/-- The include role of the code, as extracted now, is the one `proc` models (`inclHdr`, `docHdr`):
+    the steps and their ORDER — in particular the iterator Locals are written to the role's Vars
+    BEFORE the composed aggregatorRole (Locals and Vars included) is replaced by the loaded root
+    —, the `include:` expression is a stage-4 field next to the name, and the role's own sequence
+    runs with its Locals on the VarStack. -/
+theorem C15_include_steps_is_code :
+    Gen.loadIncludeSteps = Load.expectedIncludeSteps ∧ Gen.loadIncludeStage4 = ["&r.Name", "&r.Include"] ∧
+    Gen.loadIncludeSequenceLocals = "r.Locals" := by decide
+
+/-- …and the order with the publishing loop after the replacement reads as `lateInclCfg`, which is
+    NOT what the property wants (`C15_include_must_publish_before_swap`). -/
+theorem C15_late_publication_is_not_code :
+    Load.cfgOfSource Gen.loadIteratorIsEnabled Gen.loadDisabledRoleGuards
+      ["sequence", "trim-enabled", "return-if-disabled", "load-under-self", "swap", "restore:parent", "restore:Name",
+       "publish-locals", "descend-into-loaded-root"] = some lateInclCfg ∧ lateInclCfg ≠ codeCfg := by decide
 
 /-! ## determinism: schedules and switches -/
 
@@ -345,9 +380,9 @@ def C15_error_full (cfg : Cfg) : Prop := ∀ t : Tmpl, (ideal {} [] t).err = tru
 
 /-- For every configuration: every template error fails the load, for loads free of the three
     recorded behaviours (`ev.none`; for the legacy code the one that matters is `ev.masked`). -/
-theorem C15_error_partial (t : Tmpl) (hm : (proc cfg {} [] t).ev.none = true) (he : (ideal {} [] t).err = true) :
-    load cfg t = .error := by
-  rw [proc_ideal t {} [] hm] at he
+theorem C15_error_partial (hl : cfg.inclPublishLate = false) (t : Tmpl) (hm : (proc cfg {} [] t).ev.none = true)
+    (he : (ideal {} [] t).err = true) : load cfg t = .error := by
+  rw [proc_ideal hl t {} [] hm] at he
   simp [load, Out.loaded, Out.toI] at he ⊢
   simp [he]
 
@@ -357,16 +392,17 @@ theorem C15_error_partial (t : Tmpl) (hm : (proc cfg {} [] t).ev.none = true) (h
     fails to evaluate, no iterator with surviving children is dropped because of its
     template's raw `enabled`, no aggregator is kept over iterators that yielded nothing), the
     code's loader returns exactly what the property demands (`Spec`). -/
-theorem C15_code_meets_spec_partial (t : Tmpl) (h : (proc cfg {} [] t).ev.none = true) : Spec t (load cfg t) = true := by
-  simp [Spec, load_ideal t h]
+theorem C15_code_meets_spec_partial (hl : cfg.inclPublishLate = false) (t : Tmpl) (h : (proc cfg {} [] t).ev.none = true) :
+    Spec t (load cfg t) = true := by
+  simp [Spec, load_ideal hl t h]
 
 /-- For every configuration (what was proved in place of `C15_iterator_full` while the finding was
     open): the same, for templates in which every
     iterator's template is one role whose `enabled` is plain text (a purely syntactic,
     decidable condition) — then the dropped-iterator behaviour cannot occur. -/
-theorem C15_iterator_partial (t : Tmpl) (hl : iterEnabledLiteral t = true)
+theorem C15_iterator_partial (hp : cfg.inclPublishLate = false) (t : Tmpl) (hl : iterEnabledLiteral t = true)
     (hm : (proc cfg {} [] t).ev.masked = false) (hh : (proc cfg {} [] t).ev.hollow = false) : load cfg t = idealLoad t := by
-  apply load_ideal
+  apply load_ideal hp
   have hd := proc_no_iterDrop (cfg := cfg) t {} [] hl
   simp [Events.none, hm, hh, hd]
 
@@ -442,14 +478,151 @@ theorem C15_enabled_error_propagates_code (ctx : Ctx) (loc : Env) (h : Hdr)
     code as it was gives exactly the same result under the code as it is. -/
 theorem C15_repair_conservative (t : Tmpl) (h : (proc legacyCfg {} [] t).ev.none = true) :
     load codeCfg t = load legacyCfg t := by
-  rw [load_code_ideal t, load_ideal t h]
+  rw [load_code_ideal t, load_ideal rfl t h]
 
 /-- …and, syntactically: templates in which every iterator's template carries a literal
     `enabled`, loaded without a swallowed `enabled` error and without a hollow aggregator. -/
 theorem C15_repair_conservative_literal (t : Tmpl) (hl : iterEnabledLiteral t = true)
     (hm : (proc legacyCfg {} [] t).ev.masked = false) (hh : (proc legacyCfg {} [] t).ev.hollow = false) :
     load codeCfg t = load legacyCfg t := by
-  rw [load_code_ideal t, C15_iterator_partial t hl hm hh]
+  rw [load_code_ideal t, C15_iterator_partial rfl t hl hm hh]
+
+/-! ## include roles
+
+  An include role (`Tmpl.incl`) carries the header written at the include site, the `include:`
+  expression and the documents of the workflow repository it can name (`Tmpl.doc`). All theorems
+  above quantify over ALL templates and therefore cover include roles — plain, under iterators,
+  nested in included documents — without further ado: one result under every schedule and
+  switch setting (`C15_schedule_indep`, `C15_deterministic`), the sequential path equals the
+  concurrent one, the code returns what the ideal loader demands (`C15_code_meets_spec`), no empty
+  aggregator, only enabled roles, any error fails the load. What follows says what an include
+  role IS and what its place under an iterator means. -/
+
+/-- An include role whose own header evaluates: the sibling list continues with the documents
+    it can name, read in the SITE's stack `cw` — the header's own defaults / vars in front of
+    the parent's, exactly as for the children of an aggregator, plus the note which document is
+    wanted (the evaluated `include:` expression) under which name (the role's evaluated name);
+    the document exists. The role contributes whatever that document's root contributes. -/
+theorem C15_include_is_loaded_root (ctx : Ctx) (loc : Env) (h : Hdr) (inc : Field) (docs next : Tmpl)
+    (i : Info) (cw : Ctx) (ex : List String) (hh : inclHdr cfg ctx loc h inc docs = .ok i cw ex) :
+    proc cfg ctx loc (.incl h inc docs next) = (proc cfg cw [] docs).seq (proc cfg ctx loc next) ∧
+    (∃ c', procHdr ctx loc h [inc] = .ok i c' ex ∧ cw.D = c'.D ∧ cw.U = c'.U ∧
+      cw.want = some (ex.headD "", i.name)) ∧
+    hasDoc (ex.headD "") docs = true := by
+  refine ⟨by simp [proc, hh], ?_⟩
+  obtain ⟨c', hp, hd, hcw⟩ := inclHdrP_ok hh
+  exact ⟨⟨c', hp, by rw [hcw], by rw [hcw], by rw [hcw]⟩, hd⟩
+
+/-- The wanted document's root is processed as an AGGREGATOR with the document's own `enabled`,
+    defaults, vars, constraints, channels and children, no Locals, and the include role's name in
+    the name field — against the site's stack; every other document is not there. (So: the
+    included root's `enabled` and variables are evaluated below the include role's, its name is
+    the include role's, and it disappears like any aggregator when disabled or left empty.) -/
+theorem C15_included_root (ctx : Ctx) (loc : Env) (f nm : String) (hw : ctx.want = some (f, nm))
+    (hd : Hdr) (kids more : Tmpl) :
+    proc cfg ctx loc (.doc f hd kids more) =
+      (proc cfg ctx [] (.agg { hd with name := [.text nm] } kids .nil)).seq (proc cfg ctx loc more) ∧
+    (∀ f', f' ≠ f → proc cfg ctx loc (.doc f' hd kids more) = proc cfg ctx loc more) := by
+  refine ⟨by simp [proc, docHdr, hw], ?_⟩
+  intro f' hne
+  have : (f == f') = false := by simpa using fun h => hne h.symm
+  simp [proc, docHdr, hw, this]
+
+/-- A document outside an include (no include role asked for it) is no role. -/
+theorem C15_document_alone_is_no_role (ctx : Ctx) (loc : Env) (hw : ctx.want = none) (f : String) (hd : Hdr)
+    (kids more : Tmpl) : proc cfg ctx loc (.doc f hd kids more) = proc cfg ctx loc more := by
+  simp [proc, docHdr_none f hd hw]
+
+/-- A disabled include role is absent with everything it would have included: the sub-workflow
+    is not even looked up (an unknown document, or an error inside it, goes unnoticed). -/
+theorem C15_include_pruned (ctx : Ctx) (loc : Env) (h : Hdr) (en : String)
+    (he : evalField (ctx.look loc) h.enabled = some en) (hf : truthy en = false) (inc : Field) (docs next : Tmpl) :
+    proc cfg ctx loc (.incl h inc docs next) = proc cfg ctx loc next := by
+  simp [proc, inclHdr, inclHdrP, procHdr_disabled he hf]
+
+/-- An include role whose loaded root ends up without roles disappears (the root is an aggregator). -/
+theorem C15_include_empty_root_gone (ctx : Ctx) (loc : Env) (f : String) (h : Hdr) (kids next : Tmpl)
+    (i : Info) (c' : Ctx) (ex : List String)
+    (hh : docHdr ctx f h = .ok i c' ex) (hk : (proc cfg c' [] kids).f = .nil) :
+    (proc cfg ctx loc (.doc f h kids next)).f = (proc cfg ctx loc next).f := by
+  simp [proc, hh, aggOut, hk]
+
+/-- Template errors around an include fail the load: in the include role's own fields (name,
+    `include:` expression, variables, constraints, channels), an `include:` that names no document,
+    and ANY error inside the included tree. -/
+theorem C15_include_error_propagates (ctx : Ctx) (loc : Env) (h : Hdr) (inc : Field) (docs next : Tmpl) :
+    (procHdr ctx loc h [inc] = .error → (proc cfg ctx loc (.incl h inc docs next)).err = true) ∧
+    (∀ i c' ex, procHdr ctx loc h [inc] = .ok i c' ex → hasDoc (ex.headD "") docs = false →
+      (proc cfg ctx loc (.incl h inc docs next)).err = true) ∧
+    (∀ i cw ex, inclHdr cfg ctx loc h inc docs = .ok i cw ex → (proc cfg cw [] docs).err = true →
+      (proc cfg ctx loc (.incl h inc docs next)).err = true) := by
+  refine ⟨?_, ?_, ?_⟩
+  · intro hh; simp [proc, inclHdr, inclHdrP, hh]
+  · intro i c' ex hh hd
+    have : inclHdr cfg ctx loc h inc docs = .error := by
+      simp only [inclHdr, inclHdrP, hh]; rw [hd]; simp
+    simp [proc, this]
+  · intro i cw ex hh he; simp [proc, hh, he]
+
+/-- …also in its `enabled` (the code as it is). -/
+theorem C15_include_enabled_error_code (ctx : Ctx) (loc : Env) (h : Hdr)
+    (he : evalField (ctx.look loc) h.enabled = none) (inc : Field) (docs next : Tmpl) :
+    (proc codeCfg ctx loc (.incl h inc docs next)).err = true := by
+  simp [proc, inclHdr, inclHdrP, procHdr_masked he, maskedOut, codeCfg]
+
+/-- ITERATED INCLUDE, the code as it is: the role generated for element `v` reads the documents in a
+    stack in which the iteration variable IS `v` — for the included root's `enabled` and defaults
+    (stage 0/1 view, `look []`) and for whatever a role or a nested iterator below resolves
+    (`lookRange`) — unless a user variable of that name overrides it. -/
+theorem C15_iterated_include_binds_code (ctx : Ctx) (var v : String) (h : Hdr) (inc : Field) (docs : Tmpl)
+    (i : Info) (cw : Ctx) (ex : List String)
+    (hh : inclHdr codeCfg ctx [(var, v)] h inc docs = .ok i cw ex) (hu : lookup (h.uvars ++ ctx.U) var = none) :
+    cw.binds var v ∧ cw.lookRange var = some v ∧ cw.look [] var = some v := by
+  have hb := inclHdrP_binds (show inclHdrP true ctx [(var, v)] h inc docs = .ok i cw ex from hh) var v (lookup_loc var v []) hu
+  have hnil : lookup ([] : Env) var = none := rfl
+  refine ⟨hb, ?_, ?_⟩ <;> simp [Ctx.lookRange, Ctx.look, lookupChain, hb.1, hb.2, hnil]
+
+/-- EVERY DEPTH, every configuration: below a stack that binds `var := v`, every role the load
+    keeps — through aggregators, iterators, include roles and the documents they load, to any
+    depth — reads `v` under that name in its consolidated variable stack, as long as no role in
+    between gives the name a nearer value (`noRebind`: no `vars` / user variable of that name, no
+    iterator over that name). -/
+theorem C15_iteration_var_every_depth (var v : String) (t : Tmpl) (ctx : Ctx) (loc : Env)
+    (hn : noRebind var t = true) (hb : ctx.binds var v) (hl : lookup loc var = none ∨ lookup loc var = some v) :
+    ∀ i ∈ (proc cfg ctx loc t).f.allInfos, lookup i.stack var = some v :=
+  proc_keeps var v t ctx loc hn hb hl
+
+/-- …hence, for THE CODE AS IT IS: every role of the sub-workflow an iterated include role loads for
+    element `v` — the loaded root itself, its tasks, calls, aggregators, the roles nested iterators
+    and further includes generate, at every depth — sees the iteration variable bound to `v`. -/
+theorem C15_iterated_include_var_every_depth_code (ctx : Ctx) (var v : String) (h : Hdr) (inc : Field) (docs : Tmpl)
+    (hu : lookup (h.uvars ++ ctx.U) var = none) (hn : noRebind var docs = true) :
+    ∀ j ∈ (proc codeCfg ctx [(var, v)] (.incl h inc docs .nil)).f.allInfos, lookup j.stack var = some v := by
+  intro j hj
+  simp only [proc, Out.seq_empty] at hj
+  cases hh : inclHdr codeCfg ctx [(var, v)] h inc docs with
+  | ok i cw ex =>
+    rw [hh] at hj
+    exact proc_keeps var v docs cw [] hn (C15_iterated_include_binds_code ctx var v h inc docs i cw ex hh hu).1 (Or.inl rfl) j hj
+  | error => rw [hh] at hj; simp [Tree.allInfos] at hj
+  | masked => rw [hh] at hj; simp [maskedOut, codeCfg, Tree.allInfos] at hj
+  | disabled => rw [hh] at hj; simp [Out.empty, Tree.allInfos] at hj
+
+/-- An include role no iterator generated has no Locals: WHEN they are published is immaterial
+    (every configuration computes the header the property describes). -/
+theorem C15_include_order_immaterial_without_locals (ctx : Ctx) (h : Hdr) (inc : Field) (docs : Tmpl) :
+    inclHdr cfg ctx [] h inc docs = inclHdrP true ctx [] h inc docs := by
+  unfold inclHdr
+  cases cfg.inclPublishLate
+  · rfl
+  · exact inclHdrP_nolocals ctx h inc docs
+
+/-- Includes under every schedule and every setting of the three switches (they are templates). -/
+theorem C15_include_deterministic (sw sw' : Switches) (sched sched' : List Step) (root : Hdr) (rng : RangeT) (var : String)
+    (h : Hdr) (inc : Field) (docs more : Tmpl) :
+    loadWith cfg sw sched (.agg root (.iter rng var (.incl h inc docs .nil) more) .nil) =
+      loadWith cfg sw' sched' (.agg root (.iter rng var (.incl h inc docs .nil) more) .nil) :=
+  C15_deterministic sw sw' sched sched' _
 
 /-! ## findings, machine-checked on witnesses -/
 
@@ -491,6 +664,22 @@ def nested : Tmpl :=
   .agg (hdr "wf" (lit "true"))
     (nest nestLevels
       (.task { hdr "t" (lit "true") with name := [.text "t-", .str (.var "i"), .text "-", .str (.var "j")] } taskX true .nil)) .nil
+
+/-- the document `readout`: root with `vars: {tag: "cfg-{{ det }}"}` → task `reader-{{ det }}`, aggregator `proc` →
+    for n in 1..2: task `w{{ n }}-{{ det }}` -/
+def readout : Tmpl :=
+  .doc "readout" (hdr "readout" (lit "true") [("tag", [.text "cfg-", .str (.var "det")])])
+    (.task { hdr "r" (lit "true") with name := [.text "reader-", .str (.var "det")] } taskX true
+      (.agg (hdr "proc" (lit "true"))
+        (.iter (.fromTo (lit "1") (lit "2")) "n"
+          (.task { hdr "w" (lit "true") with name := [.text "w", .str (.var "n"), .text "-", .str (.var "det")] } taskX true .nil)
+          .nil) .nil)) .nil
+
+/-- root (`defaults: {det: NONE}` iff `shadowed`) → for det in ["TPC","ITS"]: include role `sub-{{ det }}`, `include: readout` -/
+def iterIncl (shadowed : Bool) : Tmpl :=
+  .agg { hdr "root" (lit "true") with defaults := if shadowed then [("det", lit "NONE")] else [] }
+    (.iter (.list (lit "[\"TPC\",\"ITS\"]")) "det"
+      (.incl { hdr "sub" (lit "true") with name := [.text "sub-", .str (.var "det")] } (lit "readout") readout .nil) .nil) .nil
 
 end Load.Witness
 
@@ -557,3 +746,44 @@ example :
     (nestCtxs {} Load.Witness.nestLevels).map (fun c => (c.lookRange "i", c.lookRange "j")) =
       [(some "1", some "1"), (some "2", some "1"), (some "2", some "2"),
        (some "3", some "1"), (some "3", some "2"), (some "3", some "3")] := by decide
+
+/-- WHY the include role publishes its Locals BEFORE it replaces its composed aggregatorRole (the
+    order `C15_include_steps_is_code` pins): with the loop after the replacement (`lateInclCfg`,
+    not the code) the iteration variable never reaches the included sub-workflow. On the witness
+    `for det in [TPC, ITS]: include readout` the code builds reader-TPC, w1-TPC, w2-TPC, reader-ITS,
+    … with `tag = cfg-TPC / cfg-ITS`; the late order builds every copy with the value of a `det`
+    defined further up (reader-NONE twice) and, when there is none, fails to load a valid workflow
+    — in both cases not what the property demands (`Spec`). -/
+theorem C15_include_must_publish_before_swap :
+    (match load codeCfg (Load.Witness.iterIncl true) with | .tree tr => tr.leaves.map (·.name) | _ => []) =
+      ["reader-TPC", "w1-TPC", "w2-TPC", "reader-ITS", "w1-ITS", "w2-ITS"] ∧
+    (match load lateInclCfg (Load.Witness.iterIncl true) with | .tree tr => tr.leaves.map (·.name) | _ => []) =
+      ["reader-NONE", "w1-NONE", "w2-NONE", "reader-NONE", "w1-NONE", "w2-NONE"] ∧
+    load codeCfg (Load.Witness.iterIncl false) ≠ .error ∧ load lateInclCfg (Load.Witness.iterIncl false) = .error ∧
+    ¬ (∀ t : Tmpl, Spec t (load lateInclCfg t) = true) := by
+  refine ⟨by decide, by decide, by decide, by decide, ?_⟩
+  intro h
+  have := h (Load.Witness.iterIncl false)
+  revert this; decide
+
+/-- Non-vacuity for the include theorems: the witness loads, under the code as it is, to a root with
+    two include roles named after their element, each the loaded root of `readout` (its own var `tag`
+    derived from the iteration variable) over a task and an aggregator; every role below the
+    include sees `det` of ITS iteration; the hypotheses of `C15_iterated_include_var_every_depth_code`
+    hold for it; a disabled include role and one naming an unknown document behave as stated. -/
+example :
+    (match load codeCfg (Load.Witness.iterIncl true) with
+     | .tree (.agg _ k _) => k.infos.map (fun i => (i.name, lookup i.ownV "tag", lookup i.stack "det"))
+     | _ => []) = [("sub-TPC", some "cfg-TPC", some "TPC"), ("sub-ITS", some "cfg-ITS", some "ITS")] ∧
+    (match load codeCfg (Load.Witness.iterIncl true) with
+     | .tree tr => tr.allInfos.map (fun i => lookup i.stack "det") | _ => []) =
+      [some "NONE", some "TPC", some "TPC", some "TPC", some "TPC", some "TPC", some "ITS", some "ITS", some "ITS", some "ITS", some "ITS"] ∧
+    noRebind "det" Load.Witness.readout = true ∧
+    load codeCfg (.agg (Load.Witness.hdr "root" (Load.Witness.lit "true"))
+      (.task (Load.Witness.hdr "a" (Load.Witness.lit "true")) Load.Witness.taskX true
+        (.incl (Load.Witness.hdr "off" (Load.Witness.lit "false")) (Load.Witness.lit "nowhere") Load.Witness.readout .nil)) .nil) =
+      load codeCfg (.agg (Load.Witness.hdr "root" (Load.Witness.lit "true"))
+        (.task (Load.Witness.hdr "a" (Load.Witness.lit "true")) Load.Witness.taskX true .nil) .nil) ∧
+    load codeCfg (.agg (Load.Witness.hdr "root" (Load.Witness.lit "true"))
+      (.incl (Load.Witness.hdr "on" (Load.Witness.lit "true")) (Load.Witness.lit "nowhere") Load.Witness.readout .nil) .nil) = .error := by
+  decide
